@@ -52,7 +52,19 @@ type Query { o(id: Int): Obj }
 type Mutation { m1(id: Int): Obj }
 type Subscription { ev: Obj }
 """
-SDLS = {"full": SDL, "single": SDL_SINGLE}
+# one object type registered as BOTH the query and the mutation root (legal): the operation kind, not the root
+# type, decides between parallel and serial execution
+SDL_SHARED_ROOT = SDL + "schema { query: Mutation mutation: Mutation subscription: Subscription }\n"
+# a custom scalar whose serialisation turns some non-null values into null (blank-to-null text)
+SDL_SCALARS = SDL + "scalar Blank\nextend type Query { bl: Blank bn: Blank! bv: Blank! bls: [Blank!] }\n"
+SDLS = {"full": SDL, "single": SDL_SINGLE, "shared-root": SDL_SHARED_ROOT, "scalars": SDL_SCALARS}
+
+
+def _blank_type():
+    from py_gql.schema import ScalarType
+
+    return ScalarType("Blank", serialize=lambda v: None if v == "" else str(v), parse=lambda v: v)
+
 
 class Thing:
     """an object (not a dict) whose concrete type is an INSTANCE attribute: default type resolution must look
@@ -73,6 +85,7 @@ ROOT = {
     "a": 1, "b": 2, "c": 3, "o": OBJ1, "n": OBJ1, "l": [OBJ1, OBJ2], "ln": [OBJ1, OBJ2],
     "i": OBJ1, "u": [OBJ1, OTHER], "s": 5, "nums": [1, 2, 3], "w": 4, "el": [], "r": 6, "things": THINGS,
     "m1": OBJ1, "m2": OBJ2, "m3": 3, "m4": [OBJ1, OBJ2], "m5": 5,
+    "bl": "", "bn": "", "bv": "v", "bls": ["x", ""],
 }
 
 import re as _re
@@ -269,7 +282,7 @@ def schema_for(custom, asyncio_styles, sdl="full"):
     key = (json.dumps(custom, sort_keys=True), asyncio_styles, sdl, tuple(sorted(sdl_opts)))
     s = _SCHEMAS.get(key)
     if s is None:
-        s = build_schema(SDLS[sdl])
+        s = build_schema(SDLS[sdl], additional_types=[_blank_type()] if sdl == "scalars" else None)
         for coord in sorted(custom):
             style = custom[coord]
             t, f = coord.split(".")
